@@ -59,6 +59,9 @@ func openDB(dir string, kv map[string]int) *NoKV.DB {
 	if kv["mt"] > 0 {
 		opt.MemTableSize = int64(kv["mt"]) // boundary family (C37): every key is written once
 	}
+	if kv["mtzero"] == 1 {
+		opt.MemTableSize = 0 // an Options value not built by NewDefaultOptions
+	}
 	opt.EnableWALWatchdog = false
 	opt.ValueLogGCInterval = 0
 	opt.NumCompactors = 1
@@ -283,7 +286,7 @@ func (e *engine) Extra() map[string]any {
 		"conc_key_histories_checked": atomic.LoadInt64(&concStats.keysChecked), "conc_rejected_writes": atomic.LoadInt64(&concStats.rejected),
 		"live_runs": atomic.LoadInt64(&liveRuns), "live_calls": atomic.LoadInt64(&liveCalls),
 		"live_calls_after_close": atomic.LoadInt64(&liveAfterClose), "live_known_finding_panics": atomic.LoadInt64(&liveKnownPanics), "live_known_finding_close_panics": atomic.LoadInt64(&liveKnownWG), "wgrace_rounds": atomic.LoadInt64(&wgRounds),
-		"handshake_schedules_on_instrumented_code": hsRuns,
+		"handshake_schedules_on_instrumented_code": hsRuns, "handshake_timeouts_retried": hsTimeoutRetries,
 	}
 }
 
@@ -304,7 +307,7 @@ func (e *engine) Exec(ops []string) (out []string) {
 		}()
 	}
 	out = make([]string, len(ops))
-	if !inChild && len(ops) > 0 && strings.HasPrefix(ops[0], "open ") && strings.Contains(ops[0], " mt=") {
+	if !inChild && len(ops) > 0 && strings.HasPrefix(ops[0], "open ") && (strings.Contains(ops[0], " mt=") || strings.Contains(ops[0], " mtzero=")) {
 		// small-memtable cases can wedge the commit worker in a busy loop that allocates a
 		// memtable arena per turn: run them in a child process that is killed afterwards
 		return runSeqChild(ops)
@@ -322,7 +325,7 @@ func (e *engine) Exec(ops []string) (out []string) {
 		c.db = openDB(dir, kv)
 		c.timeout = callTimeout
 		c.mt = kv["mt"]
-		if kv["mt"] > 0 {
+		if kv["mt"] > 0 || kv["mtzero"] == 1 {
 			c.timeout = 3 * time.Second // a write into a 64 KiB memtable takes milliseconds
 		}
 		c.throttle, c.closed = false, false
@@ -642,6 +645,9 @@ func (e *engine) Gen(r *hlib.Rand, tier string) []string {
 // loop of lsm.SetBatch must either write the entry or rotate — and return.
 func genBoundary(r *hlib.Rand) []string {
 	const mt = 65536
+	if r.Chance(15) {
+		return []string{"open mtzero=1", "get 0 6b", "set 1 6b 01", "get 0 6b", "del 2 6c", "close"}
+	}
 	ops := []string{fmt.Sprintf("open mt=%d vt=1048576 mbs=4194304 mbc=64 hot=0", mt)}
 	free := mt
 	if r.Bool() {
@@ -706,7 +712,7 @@ func (e *engine) Nontrivial(ops, impl, model, spec []string) bool {
 	}
 	if *prop == "C37" {
 		for _, op := range ops {
-			if strings.HasPrefix(op, "setfill ") {
+			if strings.HasPrefix(op, "setfill ") || strings.Contains(op, "mtzero=") {
 				return true
 			}
 		}
